@@ -303,6 +303,11 @@ func (fv *FuncVerifier) receiverAndArgs(fn *types.Func, call *ast.CallExpr, st *
 			case recvIsPtr && !haveIsPtr:
 				// addressable value: temporary object, copied back afterwards
 				if curExpr == nil || !addressable {
+					if stt, ok := curT.Underlying().(*types.Struct); ok && stt.NumFields() == 0 {
+						// a stateless embedded value (no fields): nothing to copy back
+						cur = fv.alloc(cur, st)
+						break
+					}
 					reject("pointer-receiver call on embedded value at %s", fv.pos(call.Pos()))
 				}
 				tmp := fv.alloc(cur, st)
@@ -780,13 +785,17 @@ func (fv *FuncVerifier) checkAtCall(fn *types.Func, call *ast.CallExpr, st *Stat
 			break
 		}
 		p := sig.Params().At(i)
-		if p.Name() == "" || fv.sortOf(p.Type()) == nil {
+		pn := p.Name()
+		if pn == "" || pn == "_" {
+			pn = fmt.Sprintf("arg%d", i)
+		}
+		if fv.sortOf(p.Type()) == nil {
 			continue
 		}
 		if _, isLit := ast.Unparen(a).(*ast.FuncLit); isLit {
 			continue
 		}
-		argByName[p.Name()] = fv.evalTo(a, p.Type(), st)
+		argByName[pn] = fv.evalTo(a, p.Type(), st)
 	}
 	ord := fv.counter("atcall:" + fn.Name())
 	fr := fv.frame()
